@@ -558,7 +558,17 @@ class Writer(GenericWriter):
             self.validate_fn(
                 record, self.schema, self._named_schemas, "", True, self.options
             )
-        write_data(self.io, record, self.schema, self._named_schemas, "", self.options)
+        start = self.io._fo.tell()
+        try:
+            write_data(
+                self.io, record, self.schema, self._named_schemas, "", self.options
+            )
+        except Exception:
+            # Drop what was encoded of the rejected record so that it cannot
+            # end up in the block in front of the next record
+            self.io._fo.seek(start)
+            self.io._fo.truncate()
+            raise
         self.block_count += 1
         if self.io._fo.tell() >= self.sync_interval:
             self.dump()
